@@ -6,7 +6,7 @@ TIER="${1:-quick}"; [ $# -gt 0 ] && shift
 SEEDS="$*"; [ -z "$SEEDS" ] && SEEDS=$(ls seeded)
 for sd in $SEEDS; do
     [ -f seeded/$sd/patch.diff ] || continue
-    id=$(echo "$sd" | sed 's/^R[0-9]-//')
+    id=$(echo "$sd" | sed -E 's/^R[0-9]+-//')
     r=$(tools/mutlab.sh seeded/$sd/patch.diff "$TIER" "$id" 2>&1 | grep -E "^C[0-9]+ exit|DETECTED_BY")
     echo "seed $sd -> $(echo "$r" | tr '\n' ' ' | cut -c1-420)"
 done
